@@ -1,9 +1,16 @@
 (* C02 — shared negative-cache state (ModelShared.v): what Cache.ServeDNS can synthesize from the
    denial-proof index and the subtree cuts, for every history of exchanges, clock advances, expiries,
    replacements and FIFO evictions. *)
-From Sdns Require Import Common.Base Gen.C02 C02.Model C02.ModelCut C02.ModelShared C02.Spec
-     C02.Proofs_Order C02.Proofs_Nsec C02.Proofs_NsecTop.
+From Sdns Require Import Common.Base Gen.C02 C02.Model C02.ModelCut C02.ModelNsec3 C02.ModelShared C02.Spec
+     C02.Proofs_Order C02.Proofs_Nsec C02.Proofs_NsecTop C02.Proofs_Nsec3.
 Open Scope Z_scope.
+
+Lemma quarantine_blocks_admission lim st now zone q rs e u : sh_tomb st = Some u -> now < u ->
+  record_index3 lim st now zone q rs e = st.
+Proof.
+  intros Ht Hu. unfold record_index3. destruct (_ || _); [reflexivity|]. destruct rs; [reflexivity|].
+  destruct (_ <? _)%nat; [reflexivity|]. rewrite Ht. cbn. apply Z.ltb_lt in Hu. rewrite Hu. reflexivity.
+Qed.
 
 (* ---- RFC 8020: nothing exists below a name that does not exist *)
 Lemma prefix_comparable (a b q : rname) : is_prefix a q -> is_prefix b q -> is_prefix a b \/ is_strict_prefix b a.
@@ -75,16 +82,39 @@ Proof.
   apply filter_In in H1. tauto.
 Qed.
 
+Lemma insert3_in r l x : In x (insert3 r l) -> x = r \/ In x l.
+Proof.
+  induction l as [|h t IH]; cbn; [intros [<-|[]]; auto|].
+  destruct (ohash_lt _ _); cbn; [intros [<-|H]; auto|]. intros [<-|H]; [auto|]. destruct (IH H); auto.
+Qed.
+Lemma sort3_in l x : In x (sort3 l) -> In x l.
+Proof. induction l as [|h t IH]; cbn; [auto|]. intros H. apply insert3_in in H. destruct H as [->|H]; auto. Qed.
+Lemma put_recs3_in l rs e x : In x (put_recs3 l rs e) -> In x l \/ In (fst x) rs.
+Proof.
+  unfold put_recs3. revert l. induction rs as [|r t IH]; intros l; cbn; [auto|].
+  intros H. destruct (IH _ H) as [H1|H1]; [|auto].
+  unfold put_rec3 in H1. apply in_app_or in H1. destruct H1 as [H1|[<-|[]]]; [|cbn; auto].
+  apply filter_In in H1. tauto.
+Qed.
+
 Section Shared.
   Variable z : zone.
   Hypothesis Hwf : zone_wf z.
   Variable lim : limits.
   Variable maxttl : Z.
+  (* the NSEC3 side: an injective hash over the names involved, given to the model as the table tab *)
+  Variable HH : rname -> N.
+  Variable hashed : rname -> Prop.
+  Variable tab : htab.
+  Hypothesis Hworld : nsec3_world HH z hashed tab.
+  Hypothesis Hmasks : optout_masks_are_bit0.
   Let zone := z_apex z.
 
   (* every retained NSEC entry is a record of the genuine chain; every cut names a nonexistent name *)
   Definition inv (st : shared) : Prop :=
-    (forall x, In x (sh_recs st) -> genuine z (fst x)) /\ (forall x, In x (sh_cuts st) -> ~ exists_in z (fst x)).
+    (forall x, In x (sh_recs st) -> genuine z (fst x)) /\
+    (forall x, In x (sh_recs3 st) -> rec_genuine3 HH z hashed (fst x)) /\
+    (forall x, In x (sh_cuts st) -> ~ exists_in z (fst x)).
 
   (* what provenance from the local validator stands for (the resolver side is the subject of
      authority_nsec_sound and the exact/aggressive verifier theorems): a message it marks validated and
@@ -95,44 +125,60 @@ Section Shared.
     | DsNegative rcode rs _ marked aggressive _ =>
         marked && aggressive = true ->
         (forall r, In r (canon_recs rs) -> genuine z r) /\ (rcode = 3%N -> ~ exists_in z q)
+    | DsNegative3 rcode rs _ marked aggressive _ =>
+        marked && aggressive = true ->
+        (forall r, In r rs -> rec_genuine3 HH z hashed r) /\ (rcode = 3%N -> ~ exists_in z q)
     end.
 
   Lemma inv_empty : inv shared_empty.
-  Proof. split; intros x []. Qed.
+  Proof. split; [|split]; intros x []. Qed.
 
   Lemma record_index_inv st now q rs e :
     inv st -> (forall r, In r rs -> genuine z r) -> inv (record_index lim st now zone q rs e).
   Proof.
-    intros [Hr Hc] Hg. unfold record_index.
-    destruct (_ || _); [split; assumption|]. destruct rs as [|r0 t] eqn:Er; [split; assumption|]. rewrite <- Er in *.
-    destruct (_ <? _)%nat; [split; assumption|]. split; cbn; [|exact Hc].
+    intros (Hr & H3 & Hc) Hg. unfold record_index.
+    destruct (_ || _); [(split; [|split]; assumption)|]. destruct rs as [|r0 t] eqn:Er; [(split; [|split]; assumption)|]. rewrite <- Er in *.
+    destruct (_ <? _)%nat; [(split; [|split]; assumption)|]. split; [|split]; cbn; [|exact H3|exact Hc].
     intros x Hx. apply keep_newest_incl, put_recs_in in Hx. destruct Hx as [Hx|Hx]; [auto|].
     apply Hg, sort_canon_in, Hx.
   Qed.
-  Lemma record_cut_inv st now q rs e :
-    inv st -> ~ exists_in z q -> inv (record_cut lim st now zone q rs e).
+  Lemma record_index3_inv st now q rs e :
+    inv st -> (forall r, In r rs -> rec_genuine3 HH z hashed r) -> inv (record_index3 lim st now zone q rs e).
   Proof.
-    intros [Hr Hc] Hq. unfold record_cut.
-    destruct (_ || _); [split; assumption|]. destruct rs; [split; assumption|]. split; cbn; [exact Hr|].
+    intros (Hr & H3 & Hc) Hg. unfold record_index3.
+    destruct (_ || _); [(split; [|split]; assumption)|]. destruct rs as [|r0 t] eqn:Er; [(split; [|split]; assumption)|]. rewrite <- Er in *.
+    destruct (_ <? _)%nat; [(split; [|split]; assumption)|]. destruct (tomb_active _ _); [(split; [|split]; assumption)|].
+    destruct (first_conflict _ _ _); (split; [|split]); cbn; try assumption; [intros x []|].
+    intros x Hx. apply keep_newest_incl, put_recs3_in in Hx. destruct Hx as [Hx|Hx]; [auto|].
+    apply Hg, sort3_in, Hx.
+  Qed.
+  Lemma record_cut_inv st now q n oo e :
+    inv st -> ~ exists_in z q -> inv (record_cut lim st now zone q n oo e).
+  Proof.
+    intros (Hr & H3 & Hc) Hq. unfold record_cut.
+    destruct (_ || _); [(split; [|split]; assumption)|]. destruct n; [(split; [|split]; assumption)|]. split; [|split]; cbn; [exact Hr|exact H3|].
     intros x Hx. apply keep_newest_incl, in_app_or in Hx. destruct Hx as [Hx|[<-|[]]]; [|exact Hq].
     apply filter_In in Hx. apply Hc, Hx.
   Qed.
   Lemma admit_downstream_inv st now q cd ecs ds :
     inv st -> ds_honest q ds -> inv (admit_downstream lim maxttl st now zone q cd ecs ds).
   Proof.
-    intros Hi Hh. unfold admit_downstream. destruct ds as [|rcode rs ttl marked aggressive res_cd]; [exact Hi|].
-    destruct (admission_guard _ _ _ _ _) eqn:Eg; [|exact Hi].
-    unfold admission_guard in Eg. repeat (apply andb_true_iff in Eg; destruct Eg as [Eg ?]).
-    destruct Hh as [Hg Hn]; [subst; reflexivity|].
-    destruct (rcode =? 3)%N eqn:Erc.
+    intros Hi Hh. unfold admit_downstream.
+    destruct ds as [|rcode rs ttl marked aggressive res_cd|rcode rs ttl marked aggressive res_cd]; [exact Hi| |];
+      (destruct (admission_guard _ _ _ _ _) eqn:Eg; [|exact Hi]);
+      unfold admission_guard in Eg; repeat (apply andb_true_iff in Eg; destruct Eg as [Eg ?]);
+      (destruct Hh as [Hg Hn]; [subst; reflexivity|]);
+      destruct (rcode =? 3)%N eqn:Erc.
     - apply record_cut_inv; [apply record_index_inv; assumption | apply Hn, N.eqb_eq, Erc].
     - apply record_index_inv; assumption.
+    - apply record_cut_inv; [apply record_index3_inv; assumption | apply Hn, N.eqb_eq, Erc].
+    - apply record_index3_inv; assumption.
   Qed.
   (* traffic that fails the admission guard never adds to the shared state *)
   Lemma admit_downstream_guard st now q cd ecs ds :
-    match ds with DsPositive => True | DsNegative _ _ _ m a rcd => admission_guard cd ecs m a rcd = false end ->
+    match ds with DsPositive => True | DsNegative _ _ _ m a rcd | DsNegative3 _ _ _ m a rcd => admission_guard cd ecs m a rcd = false end ->
     admit_downstream lim maxttl st now zone q cd ecs ds = st.
-  Proof. destruct ds; cbn; [reflexivity|]. intros ->. reflexivity. Qed.
+  Proof. destruct ds; cbn; [reflexivity| |]; intros ->; reflexivity. Qed.
 
   Lemma cut_walk_sh_spec now q k : forall cuts cuts' hit,
     cut_walk_sh now cuts q k = (cuts', hit) ->
@@ -155,39 +201,44 @@ Section Shared.
   Qed.
 
   Lemma index_lookup_spec st now q qtype st' r :
-    inv st -> index_lookup st now zone q qtype = (st', r) ->
+    inv st -> index_lookup tab st now zone q qtype = (st', r) ->
     inv st' /\
-    (forall rc, r = Some rc -> (rc = 3%N /\ ~ exists_in z q) \/ (rc = 0%N /\ nodata_true z q qtype)) /\
-    (forall rc, r = Some rc -> exists se, sh_soa st = Some se /\ now < se).
+    (forall rc, r = Some rc -> (rc = 3%N /\ ~ exists_in z q) \/ (rc = 0%N /\ nodata_true z q qtype)).
   Proof.
-    intros [Hr Hc]. unfold index_lookup.
-    destruct (negb (prefix_b zone q)); [intros [= <- <-]; (split; [split; assumption | split; intros ? [=]])|].
-    destruct (sh_soa st) as [se|] eqn:Es; [|intros [= <- <-]; (split; [split; assumption | split; intros ? [=]])].
-    destruct (now <? se) eqn:El; [|intros [= <- <-]; (split; [split; cbn; [intros x [] | exact Hc] | split; intros ? [=]])].
-    set (live := filter (is_live now) (sh_recs st)).
+    intros (Hr & H3 & Hc). unfold index_lookup.
+    destruct (negb (prefix_b zone q)); [intros [= <- <-]; (split; [(split; [|split]; assumption) | intros ? [=]])|].
+    destruct (sh_soa st) as [se|] eqn:Es; [|intros [= <- <-]; (split; [(split; [|split]; assumption) | intros ? [=]])].
+    destruct (now <? se) eqn:El; [|intros [= <- <-]; (split; [(split; [|split]); cbn; [intros x [] | intros x [] | exact Hc] | intros ? [=]])].
+    set (live := filter (is_live now) (sh_recs st)). set (live3 := filter (is_live now) (sh_recs3 st)).
     set (recs := reindex_c (sort_canon (map fst live))).
     assert (Hg : forall c, In c recs -> genuine z c).
     { intros c Hc'. apply reindex_from_in in Hc'. destruct Hc' as [y [Hy Hs]].
       apply (genuine_same_data z _ _ Hs). apply sort_canon_in, in_map_iff in Hy. destruct Hy as [x [<- Hx]].
       apply Hr. apply filter_In in Hx. tauto. }
-    assert (Hi : inv (mk_shared (Some se) live (sh_cuts st))).
-    { split; cbn; [|exact Hc]. intros x Hx. apply Hr. apply filter_In in Hx. tauto. }
+    assert (Hg3 : all_genuine3 HH z hashed (sort3 (map fst live3))).
+    { intros c Hc'. apply sort3_in, in_map_iff in Hc'. destruct Hc' as [x [<- Hx]]. apply H3. apply filter_In in Hx. tauto. }
+    assert (Hst : inv st) by (split; [|split]; assumption).
+    assert (Hpr : inv (mk_shared (Some se) live live3 (sh_tomb st) (sh_cuts st))).
+    { split; [|split]; cbn; [| |exact Hc]; intros x Hx; [apply Hr|apply H3]; apply filter_In in Hx; tauto. }
     pose proof (aggr_nsec_sound z q qtype 1%N zone recs Hwf Hg) as S1.
     pose proof (aggr_nsec_set_sound z q qtype 1%N zone recs Hwf Hg) as S2.
-    destruct (length live =? length (sh_recs st))%nat.
-    - destruct (aggr_nsec_set q qtype 1%N zone recs) as [e|rc p]; intros [= <- <-]; (split; [exact Hi|]); split; try discriminate.
-      + intros rc' [= <-]. exact S2.
-      + intros rc' _. exists se. split; [reflexivity | apply Z.ltb_lt, El].
-    - destruct (aggr_nsec q qtype 1%N zone recs) as [e|rc p]; intros [= <- <-]; (split; [exact Hi|]); split; try discriminate.
-      + intros rc' [= <-]. exact S1.
-      + intros rc' _. exists se. split; [reflexivity | apply Z.ltb_lt, El].
+    pose proof (aggressive_nsec3_sound_pk HH z hashed tab (sort3 (map fst live3)) q qtype 1%N zone Hworld Hmasks Hg3) as S3.
+    assert (Sx : sound_verdict z q qtype ((if negb (length live =? length (sh_recs st))%nat then aggr_nsec else aggr_nsec_set) q qtype 1%N zone recs))
+      by (destruct (negb _); assumption).
+    destruct ((if negb (length live =? length (sh_recs st))%nat then aggr_nsec else aggr_nsec_set) q qtype 1%N zone recs) as [e|rc p].
+    - assert (Hst' : inv (if negb (length live =? length (sh_recs st))%nat || negb (length live3 =? length (sh_recs3 st))%nat
+                          then mk_shared (Some se) live live3 (sh_tomb st) (sh_cuts st) else st)) by (destruct (_ || _); assumption).
+      destruct live3 as [|x3 l3] eqn:E3; [intros [= <- <-]; (split; [exact Hst' | intros ? [=]])|]. rewrite <- E3 in *.
+      destruct (aggr_nsec3 q qtype 1%N zone (sort3 (map fst live3)) tab) as [e3|rc3 p3]; intros [= <- <-]; (split; [exact Hst'|]); [intros ? [=]|].
+      destruct (tomb_active now (sh_tomb st)); [intros ? [=]|]. intros rc' [= <-]. exact S3.
+    - intros [= <- <-]. split; [destruct (negb _); assumption|]. intros rc' [= <-]. exact Sx.
   Qed.
 
   (* one exchange: the invariant is kept; a synthesized denial goes only to a request without CD and
      without ECS and is a true statement about the zone *)
   Theorem exchange_sound st now q qtype cd ecs ds st' r :
     inv st -> ds_honest q ds ->
-    exchange lim maxttl st now zone q qtype cd ecs ds = (st', r) ->
+    exchange lim maxttl tab st now zone q qtype cd ecs ds = (st', r) ->
     inv st' /\
     forall rc, r = Some rc ->
       cd = false /\ ecs = false /\
@@ -199,14 +250,14 @@ Section Shared.
     apply orb_false_iff in Ece. destruct Ece as [-> ->].
     destruct (cut_walk_sh now (sh_cuts st) q (length q)) as [cuts hit] eqn:Ew.
     destruct (cut_walk_sh_spec _ _ _ _ _ _ Ew) as [Hsub Hhit].
-    assert (Hi1 : inv (mk_shared (sh_soa st) (sh_recs st) cuts)).
-    { destruct Hi as [Hr Hc]. split; cbn; [exact Hr|]. intros x Hx. apply Hc, Hsub, Hx. }
+    assert (Hi1 : inv (mk_shared (sh_soa st) (sh_recs st) (sh_recs3 st) (sh_tomb st) cuts)).
+    { destruct Hi as (Hr & H3 & Hc). split; [|split]; cbn; [exact Hr|exact H3|]. intros x Hx. apply Hc, Hsub, Hx. }
     destruct hit as [d|].
     - intros [= <- <-]. split; [exact Hi1|]. intros rc [= <-]. repeat split. left. split; [reflexivity|].
-      destruct (Hhit d eq_refl) as [Hp [e [Hin _]]]. destruct Hi as [_ Hc].
+      destruct (Hhit d eq_refl) as [Hp [e [Hin _]]]. destruct Hi as (_ & _ & Hc).
       eapply nothing_below_nonexistent; [exact (Hc _ Hin) | exact Hp].
-    - destruct (index_lookup _ now zone q qtype) as [st2 r2] eqn:Ei.
-      destruct (index_lookup_spec _ _ _ _ _ _ Hi1 Ei) as [Hi2 [Hs _]].
+    - destruct (index_lookup tab _ now zone q qtype) as [st2 r2] eqn:Ei.
+      destruct (index_lookup_spec _ _ _ _ _ _ Hi1 Ei) as [Hi2 Hs].
       destruct r2 as [rc|].
       + intros [= <- <-]. split; [exact Hi2|]. intros rc' [= <-]. repeat split. apply Hs. reflexivity.
       + intros [= <- <-]. split; [apply admit_downstream_inv; assumption | discriminate].
@@ -214,7 +265,7 @@ Section Shared.
 
   (* nothing is synthesized from an empty state: a denial needs an earlier admission *)
   Theorem exchange_needs_admission now q qtype cd ecs ds st :
-    sh_soa st = None -> sh_cuts st = [] -> snd (exchange lim maxttl st now zone q qtype cd ecs ds) = None.
+    sh_soa st = None -> sh_cuts st = [] -> snd (exchange lim maxttl tab st now zone q qtype cd ecs ds) = None.
   Proof.
     intros Hs Hc. unfold exchange. destruct (cd || ecs); [reflexivity|]. rewrite Hc.
     assert (E : forall k, cut_walk_sh now [] q k = ([], None)) by (induction k; cbn; auto). rewrite E.
@@ -230,7 +281,7 @@ Section Shared.
     | [] => []
     | StAdvance s :: t => shared_run st (now + s) t
     | StExchange q qtype cd ecs ds :: t =>
-        let '(st', r) := exchange lim maxttl st now zone q qtype cd ecs ds in
+        let '(st', r) := exchange lim maxttl tab st now zone q qtype cd ecs ds in
         (q, qtype, cd, ecs, r) :: shared_run st' now t
     end.
   Definition history_honest (h : list shstep) : Prop :=
@@ -245,7 +296,7 @@ Section Shared.
     induction h as [|s t IH]; intros st now Hi Hh q qtype cd ecs rc; cbn; [intros []|].
     assert (Ht : history_honest t) by (intros q' qt' cd' ecs' ds' H; eapply Hh; right; exact H).
     destruct s as [q0 qt0 cd0 ecs0 ds0|s0]; [|apply IH; assumption].
-    destruct (exchange lim maxttl st now zone q0 qt0 cd0 ecs0 ds0) as [st' r] eqn:Ee.
+    destruct (exchange lim maxttl tab st now zone q0 qt0 cd0 ecs0 ds0) as [st' r] eqn:Ee.
     assert (Hd : ds_honest q0 ds0) by (eapply Hh; left; reflexivity).
     destruct (exchange_sound _ _ _ _ _ _ _ _ _ Hi Hd Ee) as [Hi' Hs].
     intros [H|H]; [|eapply IH; eauto].
@@ -273,8 +324,8 @@ Definition ex_sh_history : list shstep :=
    StAdvance 300;
    StExchange [[101%N];[97%N];[122%N]] 1%N false false DsPositive].
 Example shared_example :
-  zone_wf ex_sh_zone /\ history_honest ex_sh_zone ex_sh_history /\
-  map snd (shared_run ex_sh_zone (mk_limits 8 8) 3600 shared_empty 0 ex_sh_history)
+  zone_wf ex_sh_zone /\ history_honest ex_sh_zone (fun _ => 0%N) (fun _ => False) ex_sh_history /\
+  map snd (shared_run ex_sh_zone (mk_limits 8 8) 3600 [] shared_empty 0 ex_sh_history)
   = [None; Some 3%N; Some 3%N; Some 0%N; None; None].
 Proof.
   split; [apply zone_wf_b_sound; vm_compute; reflexivity|]. split; [|vm_compute; reflexivity].
@@ -284,3 +335,27 @@ Proof.
   - intros r Hr. apply genuine_b_sound. cbn in Hr. repeat (destruct Hr as [<-|Hr]; [vm_compute; reflexivity|]). destruct Hr.
   - intros _ He. apply exists_in_b_spec in He. vm_compute in He. discriminate.
 Qed.
+
+(* the NSEC3 ring and its quarantine, by evaluation: zone e. whose NSEC3 ring is H(e.)=10 -> H(a.e.)=30 -> 10;
+   y.e. is denied downstream with the ring and admitted; x.e. is then NXDOMAIN from the ring (closest encloser
+   e., next closer and wildcard inside 10..30); a changed RDATA at owner hash 10 arrives while the old one is
+   live (for v.e., whose hash the lookup cannot obtain, so it goes downstream): the ring is dropped and quarantined, a re-admission (u.e.) is refused until both
+   observations have expired (t = 900); afterwards the ring is admitted and answers again *)
+Definition ex3_tab : htab :=
+  [([[101%N]], 10%N); ([[101%N];[42%N]], 25%N); ([[101%N];[120%N]], 20%N); ([[101%N];[121%N]], 22%N); ([[101%N];[122%N]], 21%N);
+   ([[101%N];[119%N]], 23%N)].
+Definition ex3_ring (bm : list N) : list nsec3 :=
+  [mk_nsec3 [[101%N]] (Some 10%N) (Some 30%N) 20 1 0 0 [] 1 bm; mk_nsec3 [[101%N]] (Some 30%N) (Some 10%N) 20 1 0 0 [] 1 [1;46]%N].
+Definition ex3_history : list shstep :=
+  [StExchange [[101%N];[121%N]] 1%N false false (DsNegative3 3%N (ex3_ring [2;6;46;48;51]%N) 600 true true false);
+   StExchange [[101%N];[120%N]] 1%N false false DsPositive;
+   StExchange [[101%N];[118%N]] 1%N false false (DsNegative3 3%N (ex3_ring [2;6;16;46;48;51]%N) 900 true true false);
+   StExchange [[101%N];[117%N]] 1%N false false (DsNegative3 3%N (ex3_ring [2;6;46;48;51]%N) 600 true true false);
+   StExchange [[101%N];[120%N]] 16%N false false DsPositive;
+   StAdvance 900;
+   StExchange [[101%N];[119%N]] 1%N false false (DsNegative3 3%N (ex3_ring [2;6;16;46;48;51]%N) 600 true true false);
+   StExchange [[101%N];[120%N]] 28%N false false DsPositive].
+Example shared_nsec3_example :
+  map snd (shared_run ex_sh_zone (mk_limits 8 8) 3600 ex3_tab shared_empty 0 ex3_history)
+  = [None; Some 3%N; None; None; None; None; Some 3%N].
+Proof. vm_compute. reflexivity. Qed.
